@@ -22,6 +22,9 @@ def make_content(resource, version, size):
     n = size - len(head) - len(tail)
     seed = hashlib.sha256(("%s#%d" % (resource, version)).encode()).digest()
     body = (seed * (n // len(seed) + 1))[:n]
+    if resource.startswith("sparse") and n >= 16384:
+        # a gridded field that is mostly fill value: the middle three quarters of the object are zero bytes
+        body = body[:n // 8] + b"\0" * (n - 2 * (n // 8)) + body[n - n // 8:]
     return head + body + tail
 
 
